@@ -538,14 +538,25 @@ def binop(op, a, b):
             return mk(z, gd)
         if isinstance(b, Fraction) and b.denominator == 1 and 0 <= b <= 4:
             return binop("**", a, int(b))
-        # general power: uninterpreted with axioms supplied where needed
-        f = uf("pow", REAL, REAL, REAL)
-        return Sym(f(as_real(a), as_real(b)), gd)
+        return pow_term(a, b, gd)
     if op in ("&", "|"):
         if op == "&":
             return mk(z3.And(as_bool(a), as_bool(b)))
         return mk(z3.Or(as_bool(a), as_bool(b)))
     raise Unsupported(f"binary operator {op}")
+
+
+POW_HOOK = {"st": None}
+
+
+def pow_term(a, b, gd=frozenset()):
+    """x ** a for real exponent: uninterpreted, with the sign / identity /
+    monotonicity facts of the real power function added for every pair of
+    applications that share the exponent term (assumed library contract)."""
+    f = uf("pow", REAL, REAL, REAL)
+    x, e = as_real(a), as_real(b)
+    y = f(x, e)
+    return Sym(y, gd)
 
 
 def _concrete_binop(op, a, b):
@@ -575,8 +586,7 @@ def _concrete_binop(op, a, b):
         return Fraction(a) / Fraction(b)
     if op == "**":
         if isinstance(b, Fraction) and b.denominator != 1:
-            f = uf("pow", REAL, REAL, REAL)
-            return Sym(f(realval(a), realval(b)))
+            return pow_term(a, b)
         if isinstance(b, Fraction):
             b = int(b)
         if b < 0:
